@@ -106,7 +106,7 @@ func runC15(r *Report) {
 		for e := range removed {
 			dom := false
 			for _, a := range appends {
-				if e.From.Dominates(a.Block) {
+				if dominates(e.From, a.Block) {
 					dom = true
 				}
 			}
@@ -395,7 +395,7 @@ func ruleTruncateOnClose(r *Report) {
 		for _, e := range append(gT, gF...) {
 			leads := false
 			for _, t := range T {
-				if e.To == t.Block || e.To.Dominates(t.Block) {
+				if e.To == t.Block || dominates(e.To, t.Block) {
 					leads = true
 				}
 			}
@@ -467,7 +467,7 @@ func ruleTruncateOnClose(r *Report) {
 				su = b.Succs[0]
 			}
 			for _, t := range T {
-				if su == t.Block || su.Dominates(t.Block) {
+				if su == t.Block || dominates(su, t.Block) {
 					okGuard = true
 				}
 			}
@@ -565,7 +565,7 @@ func foldsLargest(fn *ssa.Function, s Site) (bool, string) {
 		case (bo.Op == token.GEQ || bo.Op == token.GTR) && isLargest(bo.X) && fieldOf(bo.Y) == vf && fE:
 			grow = fS
 		}
-		if grow != nil && (grow == s.Block || grow.Dominates(s.Block)) {
+		if grow != nil && (grow == s.Block || dominates(grow, s.Block)) {
 			// nothing writes the field between the test and the store (same block chain): accepted as it stands
 			return true, vf
 		}
